@@ -60,8 +60,9 @@ class ListBuilder(Periodic):
                                 local_set.add(bytes.fromhex(pubkey))
                                 pubkey_count += 1
                     event_count += 1
-                if list_kind == "allow" and local_set and self.initial:
-                    # the preconfigured keys belong to the new allow list from the start
+                if list_kind == "allow" and self.initial:
+                    # the preconfigured keys belong to the new allow list from the start,
+                    # also when the queries match nothing: the list stays enforced
                     local_set.update(bytes.fromhex(p) for p in self.initial)
                 # add first, then drop what is gone: a concurrent validator must never
                 # see an enforced list as empty ("not enforced")
